@@ -409,7 +409,8 @@ def gated_campaign(out, pid, tier, focus, scheds=None, race=False):
     drv = vlib.build_driver("walker")
     info = {"gated_schedules": len(scheds), "inprocess_tie": True}
     try:
-        traces, crash = run_gated(scheds, race=race)
+        # the quick campaign takes well under a minute; a walk that never ends is reported by the test's own timeout
+        traces, crash = run_gated(scheds, race=race, timeout=240 if tier == "quick" and not race else 1500)
     except vlib.HarnessUnavailable as e:
         out.notes.append("inprocess_tie: unavailable (%s)" % str(e)[-600:])
         info["inprocess_tie"] = False
